@@ -502,16 +502,478 @@ def _fill(rep):
                   ("extend_system", 13): LoopSpec(inv_l, hav_l, name="fill.atoms", body_post=body_l)}, max_paths=20000)
 
 
+FNC = "matid/ext/celllist.cpp"
+
+
+class CL:
+    """CellList object (fields set by the translated constructor / init)"""
+
+
+def _bins_hook(n, v):
+    if v == [] or (isinstance(v, tuple) and v and v[0] == "dim"):
+        dims = [n] + (list(v[1:]) if isinstance(v, tuple) else [])
+        if len(dims) == 3:
+            return X.Bins(dims)
+        return ("dim",) + tuple(dims)
+    return NotImplemented
+
+
+def _mk_cl(st, inf=False):
+    N = sint("N_ext")
+    st.assume(N.t >= 1)
+    cl = CL()
+    cl.positions = X.PosList(N)
+    cl.indices = X.RowList(N, "orig", None, "int")
+    cl.factors = X.RowList(N, "fac", 3, "real")
+    if inf:
+        cl.cutoff = cxxrt.INF
+        cl.cutoffSquared = cxxrt.INF
+    else:
+        c = sreal("cutoff")
+        st.assume(c.t > 0)
+        cl.cutoff = c
+        cl.cutoffSquared = c * c
+    st.ghost["cxx_vector_hook"] = _bins_hook
+    return cl, N
+
+
+def _trunc_floor_rel(b, t, dx):
+    """b == floor(t/dx) for t >= 0, written without division"""
+    br = z3.ToReal(b)
+    return z3.And(br * dx <= t, t < (br + 1) * dx)
+
+
 def _bins(rep):
-    pass
+    """CellList::init: bounding box with padding, bin counts/sizes, every extended atom lands in an existing bin"""
+    m = X.module()
+    for inf in (False, True):
+        lab = "bins[cutoff=inf]." if inf else "bins."
+
+        def mk(st, it, inf=inf):
+            cl, N = _mk_cl(st, inf)
+            st.ghost["cl"] = cl
+            return [cl], {}, {"cl": cl, "N": N}
+
+        def inv1(st, env, k, old):
+            cl = st.ghost["cl"]
+            q = z3.Int("q!mm")
+            out = []
+            for c, (lo, hi) in enumerate((("xmin", "xmax"), ("ymin", "ymax"), ("zmin", "zmax"))):
+                lo_, hi_ = z3num(getattr(cl, lo)), z3num(getattr(cl, hi))
+                X0 = cl.positions.at(0, c)
+                out.append(("%s<=first<=%s" % (lo, hi), z3.And(lo_ <= X0, X0 <= hi_)))
+                out.append(("%s<=seen<=%s" % (lo, hi), z3.ForAll([q], z3.Implies(z3.And(q >= 0, q < k.t), z3.And(lo_ <= cl.positions.at(q, c), cl.positions.at(q, c) <= hi_)))))
+            return out
+
+        def havoc1(st, env, old):
+            cl = st.ghost["cl"]
+            for nm in ("xmin", "xmax", "ymin", "ymax", "zmin", "zmax"):
+                setattr(cl, nm, SR(st.fresh_real(nm)))
+            for nm in ("i", "x", "y", "z"):
+                env.vars.pop(nm, None)
+
+        def inv2(st, env, k, old):
+            return []
+
+        def havoc2(st, env, old):
+            cl = st.ghost["cl"]
+            B = cl.bins
+            st.n += 1
+            B.b = [z3.Const("bin%s!%d" % (c, st.n), z3.ArraySort(I, I)) for c in "xyz"]
+            B.filled = fresh_set(st, "filled")
+            st.ghost["bins_before"] = (list(B.b), B.filled.arr)
+            for nm in ("idx", "x", "y", "z", "i", "j", "k"):
+                env.vars.pop(nm, None)
+
+        def body2(st, env, idx, old):
+            cl = st.ghost["cl"]
+            B = cl.bins
+            b0, f0 = st.ghost["bins_before"]
+            out = []
+            vals = [env.lookup("i"), env.lookup("j"), env.lookup("k")]
+            for c in range(3):
+                out.append(("writes-only-its-own-entry(%s)" % "xyz"[c], B.b[c] == z3.Store(b0[c], idx.t, z3num(vals[c]))))
+                out.append(("bin-exists(%s)" % "xyz"[c], z3.And(z3num(vals[c]) >= 0, z3num(vals[c]) < z3num(B.dims[c]))))
+            out.append(("marks-the-atom-stored", B.filled.arr == z3.Store(f0, idx.t, z3.BoolVal(True))))
+            return out
+
+        def post(st, ctx, r, inf=inf):
+            cl = ctx["cl"]
+            st.prove("at-least-one-bin", z3.And(z3num(cl.nx) >= 1, z3num(cl.ny) >= 1, z3num(cl.nz) >= 1))
+            if not inf:
+                st.prove("bin-size-at-least-cutoff", z3.And(z3num(cl.dx) >= cl.cutoff.t, z3num(cl.dy) >= cl.cutoff.t, z3num(cl.dz) >= cl.cutoff.t))
+            else:
+                st.prove("single-infinite-bin", z3.BoolVal(cl.nx == 1 and cl.ny == 1 and cl.nz == 1 and cl.dx is cxxrt.INF))
+
+        # safety on: the bin index obligations inside append are proved, not assumed
+        run_fv(rep, lab, m, "CellList_init", mk, post, safety=True,
+               loops={("CellList_init", 1): LoopSpec(inv1, havoc1, name="bounding-box"),
+                      ("CellList_init", 2): LoopSpec(inv2, havoc2, name="fill-bins", body_post=body2)})
+
+
+def _bin_lemmas(rep):
+    t, dx, W, c = z3.Reals("t dx W c")
+    nx, b = z3.Ints("nx b")
+    # stored atom: 0 < t < W (padding), dx = max(c, W/nx) so dx*nx >= W, b = floor(t/dx)  =>  0 <= b <= nx-1
+    rep.add(prove("lemma.bin-index-in-range", [W > 0, t > 0, t < W, nx >= 1, dx > 0, dx * z3.ToReal(nx) >= W, _trunc_floor_rel(b, t, dx)],
+                  z3.And(b >= 0, b <= nx - 1), func=FNC + ":CellList::init", timeout_ms=60000))
+    # number of bins: nx = max(1, trunc(W/c)), dx = max(c, W/nx): dx >= c and dx*nx >= W
+    k = z3.Int("k")
+    rep.add(prove("lemma.bin-size", [W > 0, c > 0, k >= 0, z3.ToReal(k) * c <= W, nx == z3.If(k >= 1, k, 1), dx == z3.If(c < W / z3.ToReal(nx), W / z3.ToReal(nx), c)],
+                  z3.And(dx >= c, dx * z3.ToReal(nx) >= W), func=FNC + ":CellList::init", timeout_ms=60000))
+    # adjacency: |u - v| <= 1, b = floor(v) in [0,nx-1], i0 = trunc(u) toward zero  =>  max(i0-1,0) <= b <= min(i0+1,nx-1)
+    u, v = z3.Reals("u v")
+    i0 = z3.Int("i0")
+    trunc = z3.If(u >= 0, z3.And(z3.ToReal(i0) <= u, u < z3.ToReal(i0) + 1), z3.And(z3.ToReal(i0) >= u, u > z3.ToReal(i0) - 1))
+    istart = z3.If(i0 - 1 < 0, 0, i0 - 1)
+    iend = z3.If(nx - 1 < i0 + 1, nx - 1, i0 + 1)
+    rep.add(prove("lemma.adjacent-bins-suffice", [u - v <= 1, v - u <= 1, z3.ToReal(b) <= v, v < z3.ToReal(b) + 1, b >= 0, b <= nx - 1, nx >= 1, trunc],
+                  z3.And(istart <= b, b <= iend), func=FNC + ":CellList::get_neighbours_for_position"))
+    x, Xs, xmin = z3.Reals("x X xmin")
+    rep.add(prove("lemma.within-cutoff-means-within-one-bin-width", [dx > 0, c > 0, dx >= c, x - Xs <= c, Xs - x <= c, u * dx == x - xmin, v * dx == Xs - xmin],
+                  z3.And(u - v <= 1, v - u <= 1), func=FNC + ":CellList::get_neighbours_for_position", timeout_ms=60000))
+    d0, d1, d2 = z3.Reals("d0 d1 d2")
+    rep.add(prove("lemma.distance-bounds-each-component", [c >= 0, d0 * d0 + d1 * d1 + d2 * d2 <= c * c], z3.And(d0 <= c, -d0 <= c), func=FNC, timeout_ms=60000))
+
+
+def _cl_after_init(st, inf=False):
+    """CellList state established by the constructor/init (contract = the facts proved in section bins + the array-initialisation summary)"""
+    cl, N = _mk_cl(st, inf)
+    for nm in ("xmin", "ymin", "zmin"):
+        setattr(cl, nm, sreal(nm))
+    if inf:
+        cl.nx = cl.ny = cl.nz = 1
+        cl.dx = cl.dy = cl.dz = cxxrt.INF
+    else:
+        for nm in ("nx", "ny", "nz"):
+            v = sint(nm)
+            st.assume(v.t >= 1)
+            setattr(cl, nm, v)
+        for nm in ("dx", "dy", "dz"):
+            v = sreal(nm)
+            st.assume(v.t >= cl.cutoff.t)
+            setattr(cl, nm, v)
+    B = X.Bins([cl.nx, cl.ny, cl.nz])
+    q = z3.Int("q!ai")
+    dims = [cl.nx, cl.ny, cl.nz]
+    mins = [cl.xmin, cl.ymin, cl.zmin]
+    ds = [cl.dx, cl.dy, cl.dz]
+    st.assume(z3.ForAll([q], B.filled.mem(q) == z3.And(q >= 0, q < N.t))) if False else None
+    B.filled = fresh_set(st, "filled")
+    st.assume(z3.ForAll([q], B.filled.mem(q) == z3.And(q >= 0, q < N.t)))
+    for c in range(3):
+        bq = z3.Select(B.b[c], q)
+        rel = (bq == 0) if inf else _trunc_floor_rel(bq, cl.positions.at(q, c) - z3num(mins[c]), z3num(ds[c]))
+        st.assume(z3.ForAll([q], z3.Implies(z3.And(q >= 0, q < N.t), z3.And(bq >= 0, bq < z3num(dims[c]), rel))))
+    cl.bins = B
+    return cl, N
 
 
 def _query(rep):
-    pass
+    """CellList::get_neighbours_for_position: one generic stored atom of one scanned bin is reported iff it is within the cutoff, with exact
+    distance / displacement / factors / original index; the scanned box is [max(i0-1,0), min(i0+1,n-1)]^3 (completeness by lemma adjacent-bins)"""
+    m = X.module()
+    _bin_lemmas(rep)
+    for inf in (False, True):
+        lab = "query[cutoff=inf]." if inf else "query."
+
+        def mk(st, it, inf=inf):
+            cl, N = _cl_after_init(st, inf)
+            st.ghost["cl"] = cl
+            x, y, z = sreal("qx"), sreal("qy"), sreal("qz")
+            st.ghost["q"] = (x, y, z)
+            return [cl, x, y, z], {}, {"cl": cl, "N": N}
+
+        names = ["neighbours", "distances", "distances_squared", "displacements", "factors", "indices_original"]
+
+        def havoc_level(level):
+            def havoc_logs(st, env, old):
+                for nm in names:
+                    env.vars[nm] = X.AppendLog(nm)
+                for nm in (["i", "j", "k"][level:] if level < 3 else []) + ["binIndices", "idx", "ix", "iy", "iz", "deltax", "deltay", "deltaz", "distance_squared"]:
+                    env.vars.pop(nm, None)
+            return havoc_logs
+
+        def check_range(which):
+            def inv(st, env, k, old):
+                return []
+            return inv
+
+        class RangeSpec(LoopSpec):
+            def __init__(self, axis):
+                super().__init__(lambda *a: [], havoc_level(axis), name="scan." + "xyz"[axis])
+                self.axis = axis
+
+            def run_for(self, interp, node, it, env, module, lid):
+                st = interp.st
+                cl = st.ghost["cl"]
+                c = self.axis
+                i0 = env.lookup(["i0", "j0", "k0"][c])
+                n = [cl.nx, cl.ny, cl.nz][c]
+                concrete = isinstance(it, range)
+                lo, hi = (z3num(it.start), z3num(it.stop)) if concrete else (z3num(it.lo), z3num(it.hi))
+                st.prove("scan.%s.from-max(i0-1,0)" % "xyz"[c], lo == z3.If(z3num(i0) - 1 < 0, 0, z3num(i0) - 1))
+                st.prove("scan.%s.to-min(i0+1,n-1)-inclusive" % "xyz"[c], hi == z3.If(z3num(n) - 1 < z3num(i0) + 1, z3num(n) - 1, z3num(i0) + 1) + 1)
+                if c == 0:
+                    # i0 is the truncated bin coordinate of the query point
+                    q = st.ghost["q"]
+                    mins = [cl.xmin, cl.ymin, cl.zmin]
+                    ds = [cl.dx, cl.dy, cl.dz]
+                    for cc in range(3):
+                        i0c = env.lookup(["i0", "j0", "k0"][cc])
+                        if isinstance(ds[cc], cxxrt.Inf):
+                            st.prove("query-bin(%s)" % "xyz"[cc], z3num(i0c) == 0)
+                        else:
+                            want = cxxrt.cxx_int((q[cc] - mins[cc]) / ds[cc])
+                            st.prove("query-bin(%s)" % "xyz"[cc], z3num(i0c) == z3num(want))
+                if concrete:
+                    from engine.pyvc import BreakSig, ContinueSig
+                    for v in it:
+                        interp.assign(node.target, v, env, module)
+                        try:
+                            interp.exec_block(node.body, env, module)
+                        except ContinueSig:
+                            continue
+                        except BreakSig:
+                            break
+                    return
+                return super().run_for(interp, node, it, env, module, lid)
+
+        def body_atoms(st, env, idx, old):
+            cl = st.ghost["cl"]
+            q = st.ghost["q"]
+            d = [z3num(q[c]) - cl.positions.at(idx.t, c) for c in range(3)]
+            d2 = d[0] * d[0] + d[1] * d[1] + d[2] * d[2]
+            logs = {nm: env.lookup(nm).log for nm in names}
+            inside = mkbool(d2 <= cl.cutoff.t * cl.cutoff.t) if not isinstance(cl.cutoff, cxxrt.Inf) else True
+            reported = len(logs["neighbours"]) == 1
+            out = [("reported-at-most-once", z3.BoolVal(all(len(v) == (1 if reported else 0) for v in logs.values())))]
+            out.append(("reported-iff-within-cutoff", z3bool(inside) == z3.BoolVal(reported)))
+            if reported:
+                out.append(("index", z3num(logs["neighbours"][0]) == idx.t))
+                out.append(("original-index", z3num(logs["indices_original"][0]) == cl.indices.f[0](idx.t)))
+                dist = z3num(logs["distances"][0])
+                out.append(("distance", z3.And(dist >= 0, dist * dist == d2)))
+                out.append(("distance-squared", z3num(logs["distances_squared"][0]) == d2))
+                out.append(("displacement-is-query-minus-image", z3.And([z3num(logs["displacements"][0][c]) == d[c] for c in range(3)])))
+                out.append(("factors", z3.And([z3num(logs["factors"][0][c]) == cl.factors.f[c](idx.t) for c in range(3)])))
+            return out
+
+        def post(st, ctx, r):
+            st.prove("returns-CellListResult", z3.BoolVal(isinstance(r, cxxrt.Struct) and r.tname == "CellListResult"))
+
+        run_fv(rep, lab, m, "CellList_get_neighbours_for_position", mk, post,
+               loops={("CellList_get_neighbours_for_position", 1): RangeSpec(0), ("CellList_get_neighbours_for_position", 2): RangeSpec(1),
+                      ("CellList_get_neighbours_for_position", 3): RangeSpec(2),
+                      ("CellList_get_neighbours_for_position", 4): LoopSpec(lambda *a: [], havoc_level(3), name="bin-content", body_post=body_atoms)})
 
 
 def _tensor(rep):
-    pass
+    """CellList::get_displacement_tensor: per atom i the map keeps, for every original index j < i, the nearest scanned image within the
+    cutoff (entries only improve); the fill writes (i,j) and (j,i) antisymmetrically; the diagonal is zero"""
+    m = X.module()
+    FT = "CellList_get_displacement_tensor"
+    for inf in (False, True):
+        lab = "tensor[cutoff=inf]." if inf else "tensor."
+
+        def arrs(st):
+            n = st.ghost["n_atoms"]
+            return (X.SymArr("displacements", [n, n, 3]), X.SymArr("distances", [n, n]), X.SymArr("factors", [n, n, 3]))
+
+        def mk(st, it, inf=inf):
+            cl, N = _cl_after_init(st, inf)
+            st.ghost["cl"] = cl
+            n = sint("n_atoms")
+            st.assume(z3.And(n.t >= 1, n.t <= N.t))
+            st.ghost["n_atoms"] = n
+            disp, dist, fac = arrs(st)
+            st.ghost["arrays"] = (disp, dist, fac)
+            q = z3.Int("q!o")
+            orig = cl.indices
+            # extended system contract (section fill): original atoms first, original index in [0, n)
+            st.assume(z3.ForAll([q], z3.Implies(z3.And(q >= 0, q < N.t), z3.And(orig.f[0](q) >= 0, orig.f[0](q) < n.t))))
+            st.assume(z3.ForAll([q], z3.Implies(z3.And(q >= 0, q < n.t), orig.f[0](q) == q)))
+            return [cl, disp, dist, fac, orig, n], {}, {"cl": cl, "n": n}
+
+        def d2_of(st, env, idx):
+            cl = st.ghost["cl"]
+            i = z3num(env.lookup("i"))
+            return [cl.positions.at(i, c) - cl.positions.at(idx, c) for c in range(3)]
+
+        def WF(st, env, mm):
+            """every entry of the map is a genuine scanned image of its key: key < i, original index = key, within the cutoff,
+            distance/displacement/factors are that image's"""
+            cl = st.ghost["cl"]
+            i = z3num(env.lookup("i"))
+            j = z3.Int("j!wf")
+            src = z3.Select(mm.src, j)
+            dd = [cl.positions.at(i, c) - cl.positions.at(src, c) for c in range(3)]
+            d2 = dd[0] * dd[0] + dd[1] * dd[1] + dd[2] * dd[2]
+            dist = z3.Select(mm.dist, j)
+            parts = [j >= 0, j < i, src >= 0, src < z3num(cl.positions.N), cl.indices.f[0](src) == j, dist >= 0, dist * dist == d2]
+            if not isinstance(cl.cutoff, cxxrt.Inf):
+                parts.append(d2 <= cl.cutoff.t * cl.cutoff.t)
+            parts += [z3.Select(mm.disp[c], j) == dd[c] for c in range(3)]
+            parts += [z3.Select(mm.fac[c], j) == cl.factors.f[c](src) for c in range(3)]
+            return z3.ForAll([j], z3.Implies(mm.keys.mem(j), z3.And(parts)))
+
+        def havoc_outer(st, env, old):
+            for a in st.ghost["arrays"]:
+                st.n += 1
+                a.a = z3.Const("%s!%d" % (a.name, st.n), a.a.sort())
+            for nm in ("i", "k", "x", "y", "z", "i0", "j0", "k0", "istart", "iend", "jstart", "jend", "kstart", "kend", "min_map", "i_bin", "j_bin", "k_bin",
+                       "binIndices", "idx", "j", "it", "distance", "displacement", "factor"):
+                env.vars.pop(nm, None)
+
+        def havoc_scan(level):
+            def h(st, env, old):
+                mm = env.lookup("min_map")
+                if not isinstance(mm, X.MinMap):
+                    mm = X.MinMap()
+                    env.vars["min_map"] = mm
+                mm.havoc()
+                for nm in (["i_bin", "j_bin", "k_bin"][level:] if level < 3 else []) + ["binIndices", "idx", "j", "ix", "iy", "iz", "deltax", "deltay", "deltaz",
+                                                                                       "distance_squared", "distance"]:
+                    env.vars.pop(nm, None)
+            return h
+
+        def inv_scan(st, env, k, old):
+            mm = env.lookup("min_map")
+            if not isinstance(mm, X.MinMap):
+                return [("map-empty-before-the-scan", z3.BoolVal(mm == {}))]
+            return [("entries-are-genuine-images", WF(st, env, mm))]
+
+        class Scan(LoopSpec):
+            def __init__(self, axis):
+                super().__init__(inv_scan, havoc_scan(axis), name="scan." + "xyz"[axis])
+                self.axis = axis
+
+            def run_for(self, interp, node, it, env, module, lid):
+                st = interp.st
+                cl = st.ghost["cl"]
+                c = self.axis
+                mm = env.lookup("min_map")
+                if not isinstance(mm, X.MinMap):
+                    st.prove("scan.map-starts-empty", z3.BoolVal(mm == {}))
+                    env.vars["min_map"] = X.MinMap()
+                i0 = env.lookup(["i0", "j0", "k0"][c])
+                n = [cl.nx, cl.ny, cl.nz][c]
+                concrete = isinstance(it, range)
+                lo, hi = (z3num(it.start), z3num(it.stop)) if concrete else (z3num(it.lo), z3num(it.hi))
+                st.prove("scan.%s.from-max(i0-1,0)" % "xyz"[c], lo == z3.If(z3num(i0) - 1 < 0, 0, z3num(i0) - 1))
+                st.prove("scan.%s.to-min(i0+1,n-1)-inclusive" % "xyz"[c], hi == z3.If(z3num(n) - 1 < z3num(i0) + 1, z3num(n) - 1, z3num(i0) + 1) + 1)
+                if concrete:
+                    from engine.pyvc import BreakSig, ContinueSig
+                    for v in it:
+                        interp.assign(node.target, v, env, module)
+                        try:
+                            interp.exec_block(node.body, env, module)
+                        except ContinueSig:
+                            continue
+                        except BreakSig:
+                            break
+                    return
+                return super().run_for(interp, node, it, env, module, lid)
+
+        def havoc_content(st, env, old):
+            mm = env.lookup("min_map")
+            mm.havoc()
+            st.ghost["mm_before"] = (mm.keys.arr, mm.dist)
+            for nm in ("idx", "j", "ix", "iy", "iz", "deltax", "deltay", "deltaz", "distance_squared", "distance"):
+                env.vars.pop(nm, None)
+
+        class Content(LoopSpec):
+            def run_for_set(self, interp, node, it, env, module, lid):
+                return super().run_for_set(interp, node, it, env, module, lid)
+
+        def body_content(st, env, idx, old):
+            cl = st.ghost["cl"]
+            mm = env.lookup("min_map")
+            k0, d0 = st.ghost["mm_before"]
+            i = z3num(env.lookup("i"))
+            j = cl.indices.f[0](idx.t)
+            dd = [cl.positions.at(i, c) - cl.positions.at(idx.t, c) for c in range(3)]
+            d2 = dd[0] * dd[0] + dd[1] * dd[1] + dd[2] * dd[2]
+            within = z3.BoolVal(True) if isinstance(cl.cutoff, cxxrt.Inf) else (d2 <= cl.cutoff.t * cl.cutoff.t)
+            jj = z3.Int("j!m")
+            dnew = z3.Select(mm.dist, j)
+            return [
+                ("qualifying-image-is-recorded-or-beaten", z3.Implies(z3.And(j < i, within), z3.And(mm.keys.mem(j), dnew * dnew <= d2, dnew >= 0))),
+                ("keys-only-grow", z3.ForAll([jj], z3.Implies(z3.Select(k0, jj), mm.keys.mem(jj)))),
+                ("entries-only-improve", z3.ForAll([jj], z3.Implies(z3.Select(k0, jj), z3.Select(mm.dist, jj) <= z3.Select(d0, jj)))),
+                ("nothing-recorded-for-j>=i-or-beyond-cutoff", z3.Implies(z3.Not(z3.And(j < i, within)), z3.And(mm.keys.arr == k0, mm.dist == d0))),
+            ]
+
+        def set_current(st, env):
+            pass
+
+        class ContentSpec(LoopSpec):
+            def run_for_set(self, interp, node, it, env, module, lid):
+                return LoopSpec.run_for_set(self, interp, node, it, env, module, lid)
+
+        # the ghost 'source image' of an entry: recorded when the code stores into the map
+        def call_hook(interp, e, f, args, kwargs, module):
+            return NotImplemented
+
+        def inv_fill(st, env, D, old):
+            disp, dist, fac = st.ghost["arrays"]
+            i = env.lookup("i")
+            return [("diagonal-zero", z3.And(z3num(dist._getitem((i, i))) == 0, *[z3num(disp._getitem((i, i, c))) == 0 for c in range(3)],
+                                             *[z3num(fac._getitem((i, i, c))) == 0 for c in range(3)])),
+                    ("entries-are-genuine-images", WF(st, env, env.lookup("min_map")))]
+
+        def havoc_fill(st, env, old):
+            for a in st.ghost["arrays"]:
+                st.n += 1
+                a.a = z3.Const("%s!%d" % (a.name, st.n), a.a.sort())
+            for nm in ("it", "distance", "displacement", "factor", "k"):
+                env.vars.pop(nm, None)
+
+        def body_fill(st, env, key, old):
+            disp, dist, fac = st.ghost["arrays"]
+            mm = env.lookup("min_map")
+            i = env.lookup("i")
+            j = key
+            dj = z3.Select(mm.dist, j.t)
+            out = [("distance-symmetric", z3.And(z3num(dist._getitem((i, j))) == dj, z3num(dist._getitem((j, i))) == dj))]
+            for c in range(3):
+                out.append(("displacement-antisymmetric[%d]" % c, z3.And(z3num(disp._getitem((i, j, c))) == z3.Select(mm.disp[c], j.t),
+                                                                           z3num(disp._getitem((j, i, c))) == -z3.Select(mm.disp[c], j.t))))
+                out.append(("factors-antisymmetric[%d]" % c, z3.And(z3num(fac._getitem((i, j, c))) == z3.Select(mm.fac[c], j.t),
+                                                                      z3num(fac._getitem((j, i, c))) == -z3.Select(mm.fac[c], j.t))))
+            return out
+
+        def post(st, ctx, r):
+            pass
+
+        # store hook: remember which extended atom is being processed (ghost source of a map entry)
+        orig_setitem = X.MinMap._setitem
+
+        def mk2(st, it, mk=mk):
+            a, k, c = mk(st, it)
+            return a, k, c
+
+        class ContentWithGhost(LoopSpec):
+            def run_for_set(self, interp, node, it, env, module, lid):
+                st = interp.st
+                orig_assign = interp.assign
+
+                def assign(t, v, e, mod):
+                    if getattr(t, "id", None) == "idx":
+                        st.ghost["current_idx"] = v
+                    return orig_assign(t, v, e, mod)
+
+                interp.assign = assign
+                try:
+                    return LoopSpec.run_for_set(self, interp, node, it, env, module, lid)
+                finally:
+                    interp.assign = orig_assign
+
+        run_fv(rep, lab, m, FT, mk2, post, safety=False, max_paths=20000,
+               loops={(FT, 1): LoopSpec(lambda *a: [], havoc_outer, name="atoms"),
+                      (FT, 3): Scan(0), (FT, 4): Scan(1), (FT, 5): Scan(2),
+                      (FT, 6): ContentWithGhost(inv_scan, havoc_content, name="bin-content", body_post=body_content),
+                      (FT, 7): LoopSpec(inv_fill, havoc_fill, name="fill", body_post=body_fill)})
 
 
 def _wrapper(rep):
